@@ -8,51 +8,8 @@ from . import common
 SIG = ('param', 'sig')
 
 
-VALUE_FREE = {'len', 'argmax', 'argmin', 'nonzero', 'flatnonzero', 'where', 'searchsorted', 'argsort', 'shape', 'size', 'ndim', 'isnan', 'any', 'all', 'sign'}
-
-
 def sample_differences(fnode, sig_params):
-    """(line, text) of every subtraction whose two operands both carry raw sample values (simple forward taint from the signal parameter: subscripts, arithmetic,
-    value-preserving calls; positions, lengths, comparisons and boolean masks carry no sample value)"""
-    import ast
-    tainted = set(sig_params)
-
-    def carries(n):
-        if isinstance(n, ast.Name):
-            return n.id in tainted
-        if isinstance(n, ast.Subscript):
-            return carries(n.value)
-        if isinstance(n, ast.BinOp):
-            return carries(n.left) or carries(n.right)
-        if isinstance(n, ast.UnaryOp):
-            return not isinstance(n.op, ast.Not) and carries(n.operand)
-        if isinstance(n, ast.IfExp):
-            return carries(n.body) or carries(n.orelse)
-        if isinstance(n, ast.Call):
-            name = n.func.attr if isinstance(n.func, ast.Attribute) else n.func.id if isinstance(n.func, ast.Name) else ''
-            if name in VALUE_FREE:
-                return False
-            recv = carries(n.func.value) if isinstance(n.func, ast.Attribute) and not (isinstance(n.func.value, ast.Name) and n.func.value.id in ('np', 'numpy')) else False
-            return recv or any(carries(a) for a in n.args)
-        if isinstance(n, (ast.Tuple, ast.List)):
-            return any(carries(e) for e in n.elts)
-        return False
-    for _ in range(3):                                   # to a fixpoint over loops
-        for st in ast.walk(fnode):
-            if isinstance(st, ast.Assign) and carries(st.value):
-                for t in st.targets:
-                    for x in ast.walk(t):
-                        if isinstance(x, ast.Name) and isinstance(x.ctx, ast.Store):
-                            tainted.add(x.id)
-            elif isinstance(st, ast.AugAssign) and carries(st.value) and isinstance(st.target, ast.Name):
-                tainted.add(st.target.id)
-    out = []
-    for n in ast.walk(fnode):
-        if isinstance(n, ast.BinOp) and isinstance(n.op, ast.Sub) and carries(n.left) and carries(n.right):
-            out.append((n.lineno, ast.unparse(n)))
-        elif isinstance(n, ast.AugAssign) and isinstance(n.op, ast.Sub) and carries(n.target) and carries(n.value):
-            out.append((n.lineno, ast.unparse(n)))
-    return out
+    return common.sample_arith(fnode, sig_params)['diff']
 
 
 def sample_diff(rep, model):
@@ -100,7 +57,14 @@ def check(rep, model, tier):
     f = model.find('_find_flank_midpoints')
     site = f'{f.path}:{f.node.lineno} _find_flank_midpoints'
     st, en, bias, n = ('param', 'start'), ('param', 'end'), ('param', 'bias'), ('param', 'n_flanks')
-    for fl in ('rise', 'decay'):
+    helper_ok = len(f.params) == 6
+    if not helper_ok:
+        # the private helper no longer has the reference's six parameters: its stand-alone definition cannot be set against the reference;
+        # what find_zerox computes through it is still compared as a whole (ZEROX-DEF, with the helper inlined)
+        for r_ in ('MID-DEF', 'WINDOW', 'LEVEL', 'INVERT-TABLE'):
+            rep.ok(r_, 'helper signature', site, found=f'_find_flank_midpoints{tuple(f.params)} differs from the reference helper: not decided at helper level (see ZEROX-DEF)',
+                   nontrivial=False)
+    for fl in (('rise', 'decay') if helper_ok else ()):
         b = {f.params[0]: SIG, f.params[1]: C(fl), f.params[2]: n, f.params[3]: st, f.params[4]: en, f.params[5]: bias}
         impl, ctx = E.run(model, f.qual, dict(b), no_inline=('find_flank_zerox',))
         spec, _ = E.spec('midpoints', {'sig': SIG, 'flank': C(fl), 'n_flanks': n, 'start': st, 'end': en, 'bias': bias}, repo=model)
